@@ -436,7 +436,18 @@ def _plan(tier):
     return {"histories": 60000, "blocks": 40, "procs": 16, "max_ops": 12}
 
 
+_CASES_CACHE = {}
+
+
 def _cases(tier, seed):
+    key = (tier, seed)
+    if key not in _CASES_CACHE:
+        _CASES_CACHE.clear()
+        _CASES_CACHE[key] = _build_cases(tier, seed)
+    return _CASES_CACHE[key]
+
+
+def _build_cases(tier, seed):
     plan = _plan(tier)
     pool = c03.style_pool(seed, plan["blocks"], 20)
     rng = random.Random(seed * 9973 + 23)
